@@ -656,6 +656,43 @@ PbExpressible(d) ==
   /\ \A sq \in Range(AllStates(d)) : /\ \A a \in PopSet(sq[1]) : AttrPb(a)
                                      /\ Has(sq[1], "position") => Val(sq[1], "position").k # "lanelets" \/ TRUE
 
+(* ------------------------------ id assignment ---------------------------------------------------------------- *)
+(* The pools use SYMBOLIC ids (lanelets 1..3, signs 21 22, lights 31 32, intersection 41 with incomings 45 46,        *)
+(* obstacles 51..54, planning problems 91 92).  The numeric ORDER of ids of different kinds is a dimension of its   *)
+(* own (writers that sort or merge references, xs:key / xs:keyref, readers that scan): Renumber(d, tok) replaces    *)
+(* every id and every reference by the concrete id of the table `tok` and re-sorts each component list by id.       *)
+SymbolicIds == {1, 2, 3, 21, 22, 31, 32, 41, 45, 46, 51, 52, 53, 54, 91, 92}
+IdPairs ==
+  [natural       |-> {},
+   lights_first  |-> {<<21, 38>>, <<22, 39>>, <<31, 21>>, <<32, 22>>},                      \* every light id < every sign id
+   interleaved   |-> {<<21, 21>>, <<31, 22>>, <<22, 23>>, <<32, 24>>},                      \* sign, light, sign, light
+   lanelets_high |-> {<<1, 71>>, <<2, 72>>, <<3, 73>>},                                     \* lanelet ids above all others but planning
+   obstacles_low |-> {<<1, 11>>, <<2, 12>>, <<3, 13>>, <<51, 1>>, <<52, 2>>, <<53, 3>>, <<54, 4>>},
+   pp_smallest   |-> {<<1, 11>>, <<2, 12>>, <<3, 13>>, <<91, 1>>, <<92, 2>>},
+   reversed      |-> {<<i, 100 - i>> : i \in SymbolicIds}]                                  \* every order reversed, also within a kind
+IdTokens == <<"natural", "lights_first", "interleaved", "lanelets_high", "obstacles_low", "pp_smallest", "reversed">>
+Ren(tok, i) == LET P == {p \in IdPairs[tok] : p[1] = i} IN IF P = {} THEN i ELSE (CHOOSE p \in P : TRUE)[2]
+ASSUME IdTablesInjective == \A t \in Range(IdTokens) : /\ \A i, j \in SymbolicIds : i # j => Ren(t, i) # Ren(t, j)
+                                                        /\ \A i \in SymbolicIds : Ren(t, i) \in 1..MaxId
+SortById(sq) == LET ids == SortIds({sq[i].id : i \in DOMAIN sq}) IN [k \in DOMAIN ids |-> CHOOSE x \in Range(sq) : x.id = ids[k]]
+Renumber(d, tok) ==
+  LET r(i) == Ren(tok, i)
+      rs(ids) == [k \in DOMAIN ids |-> r(ids[k])]
+      adj(a) == [k \in DOMAIN a |-> [a[k] EXCEPT !.id = r(a[k].id)]]
+      stop(s) == [s EXCEPT !.sref = rs(s.sref), !.lref = rs(s.lref)]
+      lanelet(la) == [la EXCEPT !.id = r(la.id), !.pred = rs(la.pred), !.succ = rs(la.succ), !.adjL = adj(la.adjL), !.adjR = adj(la.adjR),
+                                !.stop = Map(la.stop, stop), !.signs = rs(la.signs), !.lights = rs(la.lights)]
+      sign(s) == [s EXCEPT !.id = r(s.id), !.first = rs(s.first)]
+      light(t) == [t EXCEPT !.id = r(t.id)]
+      inc(i) == [i EXCEPT !.id = r(i.id), !.lan = rs(i.lan), !.r = rs(i.r), !.s = rs(i.s), !.l = rs(i.l), !.lo = IF i.lo = 0 THEN 0 ELSE r(i.lo)]
+      inter(x) == [x EXCEPT !.id = r(x.id), !.incs = SortById(Map(x.incs, inc)), !.cross = rs(x.cross)]
+      obst(o) == [o EXCEPT !.id = r(o.id)]
+      goal(g) == [g EXCEPT !.lan = rs(g.lan)]
+      pp(p) == [p EXCEPT !.id = r(p.id), !.goals = Map(p.goals, goal)]
+  IN [hdr |-> d.hdr, lanelets |-> SortById(Map(d.lanelets, lanelet)), signs |-> SortById(Map(d.signs, sign)),
+      lights |-> SortById(Map(d.lights, light)), inters |-> SortById(Map(d.inters, inter)),
+      obstacles |-> SortById(Map(d.obstacles, obst)), pps |-> SortById(Map(d.pps, pp)), ids |-> tok]
+
 (* ------------------------------ C03: the document the contract demands ------------------------------------------- *)
 (* AbstractDoc(d): element entries (Xsd2020a) of an XML document that carries every XML-carried leaf of d, children in *)
 (* the order the XSD prescribes, numbers in plain decimal notation, enumerations by their schema values.  TLC checks   *)
